@@ -5,6 +5,14 @@ HERE = os.path.dirname(os.path.abspath(__file__))
 ALL = ["C%02d" % i for i in range(1, 21)]
 
 CHECKS = {
+ "C13": dict(level="exploration", design="DESIGN.md 3/C13",
+   text="timeline monitor on real wall-clock time: ~400 instance timelines per run (register, heartbeat periods 0.5-2.4 s, silence, resume around the time-outs, replace, ephemeral<->persistent flips, HTTP<->gRPC owner switches, take-over from a failed node) against a stand-alone NamingActor with its own 2 s tick and H=3 s / T=4 s, observed every 250 ms; oracle from RECORDED call/ack times with ambiguity bands; plus a real node over HTTP (both tiers) and a real 3-node cluster with owner kill (thorough)",
+   note="bounded-progress restatement (bounds in the evidence); default 15 s/30 s constants not run; observations inside the slack bands ignored; late findings of runs with scheduling lag > 400 ms dropped and counted",
+   technique="runtime monitoring of recorded timelines against time-bound oracles (real timers, no clock hook)"),
+ "C14": dict(level="exploration", design="DESIGN.md 3/C14",
+   text="exhaustive view enumeration: for every cluster size 1..5, every dead set and every live local node (129 views, in two id families) a real InnerNodeManage actor is driven to that view by the genuine 15 s liveness rule (peers kept alive or starved); for service keys covering every hash residue mod 60 the owner range (QueryOwnerRange / is_range), the NamingActor's range and NodeManage::route_addr must agree: exactly one owner, route == owner",
+   note="exhaustive for (n<=5, dead set, local id, residue mod 60); transient windows between a status change and the next tick not judged",
+   technique="exhaustive runtime enumeration of cluster views on the real actors + agreement oracle"),
  "C16": dict(level="exploration", design="DESIGN.md 3/C16",
    text="runtime black-box monitor on the real binary with RNACOS_ENABLE_OPEN_API_AUTH=true: the registered route table is discovered by observation, path spellings (case, slashes, dot segments, percent-encoding of prefix and inner segments, %2F, ;x=y, absolute form) that still reach a handler are kept, then every (route, method, spelling) x token carrier x token value {absent, empty, garbage, expired, other server's} must be answered 403 with the data fingerprint of the target unchanged, positive controls with a valid token must work; same for every gRPC data type (vh grpc-client) and the cluster-internal types with/without the cluster token",
    note="route discovery is literal-based (a route whose path appears nowhere as a string literal would be missed); HTTP/2 and smuggling not tried",
